@@ -669,6 +669,99 @@ fn sample_lock(c: &LockCase) -> Value {
     json!({"keylen": c.cfg.keylen, "rt_workers": c.cfg.rt_workers, "ops": render_ops(&c.ops), "restart_before_the_second_process": c.reopened, "restart_lazy": c.reopened_lazy, "second_process_init_lazy": c.child_lazy})
 }
 
+// ------------------------------------------------------------------------------------------------
+// phase "plant-next": a file already sits under the name the next blob will get
+// ------------------------------------------------------------------------------------------------
+
+/// While the storage runs, a file appears under the name of the NEXT blob (an operator's copy of a blob, a restored backup):
+/// its id was not there at init, so the id counter does not know it. Then the active blob is switched. Whatever the storage
+/// does with that name, the bytes of the planted file - and of every other blob - stay a prefix of what is there afterwards.
+#[derive(Clone, Debug, Serialize, Deserialize)]
+pub struct PlantCase {
+    pub cfg: Cfg,
+    pub ops: Vec<Op>,
+    /// 0 try_close + try_create, 1 force_update_active_blob(always), 2 background close + background create
+    pub how: u8,
+    /// the planted file is a copy of the active blob (true) or 300 bytes of 0x5A (false)
+    pub copy_of_active: bool,
+}
+
+pub fn plant_strategy() -> BoxedStrategy<PlantCase> {
+    let gen = GenParams { nkeys: 4, ts_span: 4, metas: 2, max_ops: 10, w_write: 70, w_delete: 10, w_switch: 16, w_wait: 4, w_reopen: 0, ..Default::default() };
+    (prop::sample::select(&[8usize, 33][..]), prop_oneof![Just(2usize), Just(0usize)], prop::collection::vec(op_strategy(&gen), 1..gen.max_ops), 0u8..3, any::<bool>())
+        .prop_map(|(keylen, rt_workers, ops, how, copy_of_active)| PlantCase { cfg: Cfg { keylen, rt_workers, allow_dup: true, ..Cfg::default() }, ops, how, copy_of_active })
+        .boxed()
+}
+
+pub fn run_plant(c: &PlantCase, dir: &Path, findings: &Findings) -> Result<CaseOut, Failure> {
+    let fail = |clause: &str, detail: String| -> Result<CaseOut, Failure> { Err(Failure { clause: clause.into(), detail, step: 0, op: format!("plant how {}", c.how) }) };
+    let rt = c.cfg.runtime();
+    let res = rt.block_on(async {
+        let mut ex = crate::interp::Exec::new(c.cfg.clone(), dir.to_path_buf(), crate::interp::Checks::default(), 4, 2, findings);
+        ex.start().await?;
+        for (i, op) in c.ops.iter().enumerate() {
+            ex.apply(i, op).await?;
+        }
+        let _ = wait_quiet(ex.s(), true, Duration::from_secs(60)).await;
+        let next = ex.s().next_blob_id();
+        let planted = sut::blob_path(dir, next);
+        let content = match (c.copy_of_active, ex.model.active) {
+            (true, Some(a)) => std::fs::read(sut::blob_path(dir, a)).unwrap_or_else(|_| vec![0x5A; 300]),
+            _ => vec![0x5A; 300],
+        };
+        if std::fs::write(&planted, &content).is_err() {
+            return fail("harness/io", "cannot plant the file".into());
+        }
+        let mut before: Vec<(PathBuf, Vec<u8>)> = vec![];
+        for (_, is_idx, p) in sut::list_files(dir) {
+            if !is_idx {
+                before.push((p.clone(), std::fs::read(&p).unwrap_or_default()));
+            }
+        }
+        match c.how {
+            0 => {
+                let _ = ex.s().try_close_active().await;
+                let _ = ex.s().try_create_active().await;
+            }
+            1 => ex.s().force_update(crate::sut::Pred::Always).await,
+            _ => {
+                ex.s().close_active_bg().await;
+                ex.s().create_active_bg().await;
+            }
+        }
+        let _ = wait_quiet(ex.s(), true, Duration::from_secs(60)).await;
+        // (the write may fail - the storage may refuse the name or stumble over the content - only the files are judged)
+        let _ = ex.s().write(&key_bytes(c.cfg.keylen, 1), Bytes::from(vec![0x77u8; 50]), 9, None).await;
+        let _ = wait_quiet(ex.s(), true, Duration::from_secs(60)).await;
+        let corrupted = c.cfg.corrupted_path(dir);
+        for (p, old) in &before {
+            let now = match std::fs::read(p) {
+                Ok(b) => b,
+                Err(_) => match p.file_name().map(|n| corrupted.join(n)).and_then(|q| std::fs::read(q).ok()) {
+                    Some(b) if b == *old => continue, // moved aside unchanged
+                    _ => return fail("plant-next/blob-gone", format!("{:?} ({} bytes) is gone", p, old.len())),
+                },
+            };
+            if now.len() < old.len() || now[..old.len()] != old[..] {
+                return fail("plant-next/blob-harmed", format!("{:?} had {} bytes before the switch, now {} bytes, earlier content is not a prefix (planted file: {:?})", p, old.len(), now.len(), planted.file_name()));
+            }
+        }
+        let stats = ex.stats.clone();
+        if let Some(s) = ex.sut.take() {
+            let _ = s.close().await;
+        }
+        let mut labels = BTreeSet::new();
+        labels.insert(format!("plant_how_{}", c.how));
+        Ok(CaseOut { nontrivial: true, labels, stats, known_hits: Default::default(), weight: 1 })
+    });
+    drop(rt);
+    res
+}
+
+fn sample_plant(c: &PlantCase) -> Value {
+    json!({"keylen": c.cfg.keylen, "rt_workers": c.cfg.rt_workers, "ops": render_ops(&c.ops), "switch_by(0 close+create,1 force_update,2 background)": c.how, "planted_copy_of_active_blob": c.copy_of_active})
+}
+
 pub fn run(ctx: &RunCtx) -> PropResult {
     let mut report = Report::default();
     let findings = ctx.findings.clone();
@@ -680,6 +773,10 @@ pub fn run(ctx: &RunCtx) -> PropResult {
     run_replays::<SelfCase, _>(ctx, "tools-self", &ctx.verif_dir.join("replays").join("C07"), runf, &mut report);
     let runf = |c: &SelfCase, d: &Path| run_self(c, d, &findings);
     run_generated(ctx, "tools-self", ctx.tier.pick(400, 6000), self_strategy, runf, &sample_self, &mut report);
+    let runf = |c: &PlantCase, d: &Path| run_plant(c, d, &findings);
+    run_replays::<PlantCase, _>(ctx, "plant-next", &ctx.verif_dir.join("replays").join("C07"), runf, &mut report);
+    let runf = |c: &PlantCase, d: &Path| run_plant(c, d, &findings);
+    run_generated(ctx, "plant-next", ctx.tier.pick(200, 3000), plant_strategy, runf, &sample_plant, &mut report);
     let runf = |c: &LockCase, d: &Path| run_lock(c, d, &findings);
     run_replays::<LockCase, _>(ctx, "two-process", &ctx.verif_dir.join("replays").join("C07"), runf, &mut report);
     let runf = |c: &LockCase, d: &Path| run_lock(c, d, &findings);
@@ -687,7 +784,7 @@ pub fn run(ctx: &RunCtx) -> PropResult {
     PropResult {
         report,
         level: "exploration",
-        rule: "proptest histories over ALL public calls (data ops, try_close/create/restore, force_update, *_in_background, offload, fsync, free, wait-idle), restarts with index damage, one-shot injected I/O failures (n-th create / open / write / short write / sync on blob or index files, ENOSPC or EIO, hitting client calls, background tasks or a later init alike), and crash-restarts in which blob files are damaged so that init quarantines them (cut inside a record header / body / the blob header, zeroed magic, flipped header byte; data validation on/off; quarantine or ignore; the corrupted dir under its default name, another name, or a two-component relative path). After EVERY step the bytes of every *.blob in the work dir and the corrupted dir are compared with the previous snapshot: earlier bytes must be a prefix of the current bytes, or the file sits byte-identical in the corrupted dir (then immutable); new blob files must carry an id never used by any file of either directory. From the I/O tap: every write to a *.blob starts exactly at the end implied by the earlier writes (a failed write keeps its reserved range: nothing is ever written over it), no truncate/remove ever names a *.blob, renames only move a blob into the corrupted dir without overwriting, and at idle points a batch of every query kind is bracketed by zero write/create/truncate/rename/remove events. A phase tools-self closes a generated small directory and makes one offline-tools call (recovery_blob with either skip value, migrate_blob, move_and_recover_blob) whose output is the input blob itself under a spelling Path equality identifies with it (identical, doubled separators, /./ segments; either argument re-spelled): whatever the call answers, every blob file keeps its earlier bytes as a prefix. Non-trivial = a blob was created after a restart or a quarantine, or a failpoint fired; tools-self: the two spellings differ as strings. A phase two-process keeps the storage open (blobs created in this session, or opened from existing files after a restart), lets a second process of this binary initialise a storage on the same directory (eager or lazy; if it gets in it writes three records) and then writes again itself: the bytes present when the second process has gone are a prefix of every blob afterwards and every blob parses; the harness opens no blob file while the second process may run (that would drop the first process's POSIX locks). Non-trivial there = the files were held through open, not create. distinct = FNV hash of the serialized case.".into(),
+        rule: "proptest histories over ALL public calls (data ops, try_close/create/restore, force_update, *_in_background, offload, fsync, free, wait-idle), restarts with index damage, one-shot injected I/O failures (n-th create / open / write / short write / sync on blob or index files, ENOSPC or EIO, hitting client calls, background tasks or a later init alike), and crash-restarts in which blob files are damaged so that init quarantines them (cut inside a record header / body / the blob header, zeroed magic, flipped header byte; data validation on/off; quarantine or ignore; the corrupted dir under its default name, another name, or a two-component relative path). After EVERY step the bytes of every *.blob in the work dir and the corrupted dir are compared with the previous snapshot: earlier bytes must be a prefix of the current bytes, or the file sits byte-identical in the corrupted dir (then immutable); new blob files must carry an id never used by any file of either directory. From the I/O tap: every write to a *.blob starts exactly at the end implied by the earlier writes (a failed write keeps its reserved range: nothing is ever written over it), no truncate/remove ever names a *.blob, renames only move a blob into the corrupted dir without overwriting, and at idle points a batch of every query kind is bracketed by zero write/create/truncate/rename/remove events. A phase tools-self closes a generated small directory and makes one offline-tools call (recovery_blob with either skip value, migrate_blob, move_and_recover_blob) whose output is the input blob itself under a spelling Path equality identifies with it (identical, doubled separators, /./ segments; either argument re-spelled): whatever the call answers, every blob file keeps its earlier bytes as a prefix. Non-trivial = a blob was created after a restart or a quarantine, or a failpoint fired; tools-self: the two spellings differ as strings. A phase plant-next lets a file appear under the name of the NEXT blob while the storage runs (a copy of the active blob, or 300 foreign bytes), switches the active blob (close + create, forced update, background requests) and writes: the planted bytes and every other blob stay a prefix of what is there afterwards (or sit unchanged in the corrupted dir). A phase two-process keeps the storage open (blobs created in this session, or opened from existing files after a restart), lets a second process of this binary initialise a storage on the same directory (eager or lazy; if it gets in it writes three records) and then writes again itself: the bytes present when the second process has gone are a prefix of every blob afterwards and every blob parses; the harness opens no blob file while the second process may run (that would drop the first process's POSIX locks). Non-trivial there = the files were held through open, not create. distinct = FNV hash of the serialized case.".into(),
         assumptions: {
             let mut a = common_assumptions();
             a.push("damage applied by the harness itself re-baselines the snapshot (it is the fault, not the system's doing)".into());
@@ -700,6 +797,9 @@ pub fn replay_other(phase: &str, case: &Value, dir: &Path, findings: &Findings) 
     if phase == "harm" {
         let runf = |c: &HarmCase, d: &Path| run_harm(c, d, findings);
         serde_json::from_value::<HarmCase>(case.clone()).ok().map(|c| guarded(&c, dir, &runf))
+    } else if phase == "plant-next" {
+        let runf = |c: &PlantCase, d: &Path| run_plant(c, d, findings);
+        serde_json::from_value::<PlantCase>(case.clone()).ok().map(|c| guarded(&c, dir, &runf))
     } else if phase == "two-process" {
         let runf = |c: &LockCase, d: &Path| run_lock(c, d, findings);
         serde_json::from_value::<LockCase>(case.clone()).ok().map(|c| guarded(&c, dir, &runf))
